@@ -6,7 +6,7 @@
 
 using namespace vh;
 
-static long dm_ncases(const std::string& tier) { return tier == "thorough" ? 6000 : 320; }
+static long dm_ncases(const std::string& tier) { return tier == "thorough" ? 20000 : 320; }
 
 static void dm_run(Ctx& c) {
     Rng& r = c.rng;
